@@ -16,57 +16,57 @@ func blocked(why string) engineAbort { return engineAbort{"blocked", why} }
 
 func (ex *exec) chanSend(c *gochan, v value) {
 	if c == nil {
-		panic(blocked("send on nil channel"))
+		for {
+			ex.park("send on nil channel")
+		}
 	}
 	if c.elemT != nil && needsCopy(c.elemT) {
 		v = copyVal(c.elemT, v)
 	}
-	if c.closed {
-		panic(runtimeError("send on closed channel"))
-	}
-	if len(c.buf) < c.cap {
-		c.buf = append(c.buf, v)
-		return
-	}
-	// unbuffered or full: give pending goroutines a chance to drain, then give up
-	if !ex.inGo {
-		ex.runPending()
+	for {
+		if c.closed {
+			panic(runtimeError("send on closed channel"))
+		}
 		if len(c.buf) < c.cap {
 			c.buf = append(c.buf, v)
 			return
 		}
+		if c.cap == 0 && c.recvWaiting > 0 && len(c.buf) == 0 {
+			// rendezvous: a receiver is parked on this channel
+			c.buf = append(c.buf, v)
+			return
+		}
+		ex.park("send on full channel")
 	}
-	if c.cap == 0 {
-		// rendezvous with a receiver that is not modelled: keep the value for a later receive
-		c.buf = append(c.buf, v)
-		return
-	}
-	panic(blocked("send on full channel"))
 }
 
 func (ex *exec) chanRecv(c *gochan, elemT types.Type, commaOk bool) value {
 	if c == nil {
-		panic(blocked("receive from nil channel"))
+		for {
+			ex.park("receive from nil channel")
+		}
 	}
-	if len(c.buf) == 0 && !c.closed && !ex.inGo {
-		ex.runPending()
+	for {
+		var v value
+		ok := true
+		switch {
+		case len(c.buf) > 0:
+			v = c.buf[0]
+			c.buf = c.buf[1:]
+		case c.closed:
+			v = zero(elemT)
+			ok = false
+		default:
+			c.recvWaiting++
+			ex.park("receive from empty channel")
+			c.recvWaiting--
+			continue
+		}
+		if commaOk {
+			return tuple{v, ok}
+		}
+		return v
 	}
-	var v value
-	ok := true
-	switch {
-	case len(c.buf) > 0:
-		v = c.buf[0]
-		c.buf = c.buf[1:]
-	case c.closed:
-		v = zero(elemT)
-		ok = false
-	default:
-		panic(blocked("receive from empty channel"))
-	}
-	if commaOk {
-		return tuple{v, ok}
-	}
-	return v
 }
 
 func (ex *exec) selectInstr(fr *frame, instr *ssa.Select) value {
@@ -84,7 +84,7 @@ func (ex *exec) selectInstr(fr *frame, instr *ssa.Select) value {
 				ready = append(ready, i)
 			}
 		} else {
-			if c.closed || len(c.buf) < c.cap || c.cap == 0 {
+			if c.closed || len(c.buf) < c.cap || (c.cap == 0 && c.recvWaiting > 0 && len(c.buf) == 0) {
 				ready = append(ready, i)
 			}
 		}
@@ -127,11 +127,18 @@ func (ex *exec) selectInstr(fr *frame, instr *ssa.Select) value {
 	}
 	if chosen < 0 {
 		if instr.Blocking {
-			if !ex.inGo && len(ex.pending) > 0 {
-				ex.runPending()
-				return ex.selectInstr(fr, instr)
+			for _, st := range instr.States {
+				if c, _ := fr.get(st.Chan).(*gochan); c != nil && st.Dir == types.RecvOnly {
+					c.recvWaiting++
+				}
 			}
-			panic(blocked("select with no ready case"))
+			ex.park("select with no ready case")
+			for _, st := range instr.States {
+				if c, _ := fr.get(st.Chan).(*gochan); c != nil && st.Dir == types.RecvOnly {
+					c.recvWaiting--
+				}
+			}
+			return ex.selectInstr(fr, instr)
 		}
 	}
 	recvOk := false
@@ -171,47 +178,144 @@ func (ex *exec) selectInstr(fr *frame, instr *ssa.Select) value {
 	return r
 }
 
-// spawn records a goroutine; it runs to completion (or until it blocks) at the next scheduling point.
-func (ex *exec) spawn(fr *frame, instr *ssa.Go, fn value, args []value) {
-	ex.pending = append(ex.pending, func() { ex.call(nil, instr.Pos(), fn, args) })
+// Logical threads: every `go` statement creates a coroutine (a real goroutine that only ever runs while it holds
+// the baton). A thread that would block parks and hands the baton back; the scheduler resumes parked threads
+// round-robin whenever the running thread parks or asks for it (verifrt.RunPending). Which thread runs first
+// among several runnable ones is fixed (creation order): schedules are not explored.
+type coro struct {
+	id     int
+	resume chan bool // true: run; false: unwind and exit
+	yield  chan coroMsg
+	done   bool
+	depth  int
+	start  func()
 }
 
-// runPending runs queued goroutines one after another; a goroutine that blocks is abandoned.
+type coroMsg struct {
+	kind int // 0 parked, 1 finished, 2 panicked
+	val  interface{}
+}
+
+type coroKilled struct{}
+
+func (ex *exec) spawn(fr *frame, instr *ssa.Go, fn value, args []value) {
+	c := &coro{id: len(ex.coros) + 1, resume: make(chan bool), yield: make(chan coroMsg)}
+	c.start = func() { ex.call(nil, instr.Pos(), fn, args) }
+	ex.coros = append(ex.coros, c)
+	go func() {
+		if ok := <-c.resume; !ok {
+			c.yield <- coroMsg{kind: 1}
+			return
+		}
+		defer func() {
+			r := recover()
+			switch {
+			case r == nil:
+				c.yield <- coroMsg{kind: 1}
+			default:
+				if _, killed := r.(coroKilled); killed {
+					c.yield <- coroMsg{kind: 1}
+				} else {
+					c.yield <- coroMsg{kind: 2, val: r}
+				}
+			}
+		}()
+		c.start()
+	}()
+}
+
+// switchTo runs coroutine c until it parks, finishes or panics. Returns whether it executed any instruction.
+func (ex *exec) switchTo(c *coro) bool {
+	prev, prevDepth := ex.cur, ex.depth
+	before := ex.steps
+	ex.cur = c
+	ex.depth = c.depth
+	c.resume <- true
+	msg := <-c.yield
+	c.depth = ex.depth
+	ex.cur, ex.depth = prev, prevDepth
+	switch msg.kind {
+	case 1:
+		c.done = true
+	case 2:
+		c.done = true
+		if ea, ok := msg.val.(engineAbort); ok {
+			panic(ea)
+		}
+		if ie, ok := msg.val.(internalError); ok {
+			panic(ie)
+		}
+		// an uncaught target panic in a goroutine crashes the program
+		ex.goPanic = msg.val
+		panic(msg.val)
+	}
+	return ex.steps > before
+}
+
+// runPending lets the other logical threads run until none of them can make progress.
 func (ex *exec) runPending() {
-	for len(ex.pending) > 0 {
-		g := ex.pending[0]
-		ex.pending = ex.pending[1:]
-		ex.runGo(g)
+	if ex.scheduling {
+		return
+	}
+	ex.scheduling = true
+	defer func() { ex.scheduling = false }()
+	for progress := true; progress; {
+		progress = false
+		for i := 0; i < len(ex.coros); i++ {
+			c := ex.coros[i]
+			if c.done || c == ex.cur {
+				continue
+			}
+			if ex.switchTo(c) {
+				progress = true
+			}
+		}
 	}
 }
 
-func (ex *exec) runGo(g func()) {
-	saved := ex.inGo
-	savedDepth := ex.depth
-	ex.inGo = true
-	defer func() {
-		ex.inGo = saved
-		ex.depth = savedDepth
-		if r := recover(); r != nil {
-			if ea, ok := r.(engineAbort); ok && ea.kind == "blocked" {
-				ex.blockedGo++
-				return
-			}
-			panic(r)
+// park is called by a thread that cannot proceed: a coroutine hands the baton back and waits to be resumed (the
+// caller then retries); the main thread first lets the others run and gives up if that changes nothing.
+func (ex *exec) park(why string) {
+	if c := ex.cur; c != nil {
+		c.yield <- coroMsg{kind: 0}
+		if ok := <-c.resume; !ok {
+			panic(coroKilled{})
 		}
-	}()
-	g()
+		return
+	}
+	before := ex.steps
+	ex.runPending()
+	if ex.steps == before {
+		panic(blocked(why))
+	}
+	ex.mainParks++
+	if ex.mainParks > 10000 {
+		panic(engineAbort{"incomplete", "main thread parked too often (livelock)"})
+	}
+}
+
+// killCoros unwinds every logical thread still alive at the end of a path.
+func (ex *exec) killCoros() {
+	for _, c := range ex.coros {
+		if c.done {
+			continue
+		}
+		c.resume <- false
+		<-c.yield
+		c.done = true
+	}
+	ex.coros = nil
 }
 
 // ---------------------------------------------------------------------
 // locks
 
 type heldLock struct {
-	ptr    *value
-	write  bool
-	count  int
-	site   string
-	inGo   bool
+	ptr   *value
+	write bool
+	count int
+	site  string
+	owner *coro // logical thread that took it (nil = main)
 }
 
 func (ex *exec) findLock(p *value) *heldLock {
@@ -238,16 +342,18 @@ func (ex *exec) lockAcquire(fr *frame, p *value, write bool) {
 		panic(runtimeError("invalid memory address or nil pointer dereference"))
 	}
 	h := ex.findLock(p)
+	for h != nil && h.owner != ex.cur && (write || h.write) {
+		// held by another logical thread: wait for it
+		ex.park("lock held by another logical thread")
+		h = ex.findLock(p)
+	}
 	if h == nil {
-		ex.held = append(ex.held, &heldLock{ptr: p, write: write, count: 1, site: ex.lockSite(fr), inGo: ex.inGo})
+		ex.held = append(ex.held, &heldLock{ptr: p, write: write, count: 1, site: ex.lockSite(fr), owner: ex.cur})
 		return
 	}
 	if !write && !h.write {
 		h.count++
 		return
-	}
-	if ex.inGo != h.inGo {
-		panic(blocked("lock held by another logical thread"))
 	}
 	// self-deadlock on a single logical thread
 	site := ex.lockSite(fr)
